@@ -46,7 +46,7 @@ func genE2EBasic(g *Gen, tag string) *Plan {
 			case 6:
 				ops = append(ops, ClientOp{GapMs: gap, Op: "ping"})
 			case 7:
-				ops = append(ops, ClientOp{GapMs: gap, Op: "publish_pre", TopicID: uint16(g.Range(2, 4)), QoS: uint8(g.Intn(4)), Payload: serialPayload(cp.Name+":", k, 3)})
+				ops = append(ops, ClientOp{GapMs: gap, Op: "publish_pre", TopicID: visibleID(g, cfg.Predefined, cids[i]), QoS: uint8(g.Intn(4)), Payload: serialPayload(cp.Name+":", k, 3)})
 			}
 		}
 		ops = append(ops, ClientOp{GapMs: g.Range(10, 1000), Op: "disconnect"}, ClientOp{Op: "wait"})
